@@ -4,6 +4,7 @@ import TantivyModel.Model.BoolCompile
 import TantivyModel.Model.PhraseSlop
 import TantivyModel.Model.OrderEnc
 import TantivyModel.Model.JsonRange
+import TantivyModel.Model.FastRange
 /-
 Line protocol of the C03 model.
 
@@ -12,6 +13,7 @@ Line protocol of the C03 model.
   C03 count <corpus> <query>…             implementation model: Σ `weightCount`
   C03 ok <query>…                         side conditions `okQ singleClauseGuard` of C03_compile_sound_partial
   C03 jrange <col i|u> <values supplied as i|u> <lk> <lt> <lv> <uk> <ut> <uv> <values>   JSON numeric range: impl bits | spec bits | column type as predicted
+  C03 ffrange <lk> <lv> <uk> <uv> <col min> <col max> <full 0|1>   scorer chosen by search_on_u64_ff: empty | all | range:st:en
   C03 guard                               does BooleanWeight::scorer's single-clause branch honour msm (extracted)
   C03 slop <on|off> <slop> <l1/l2/…>      the two phrase-slop algorithms on adjusted position lists
   C03 i64 <u64 bits> / C03 f64 <u64 bits> order-preserving encodings (on bit patterns)
@@ -225,6 +227,14 @@ def handle : List String → String
       String.ofList (vs.map (fun v => if JsonRange.specMatch lo hi v then '1' else '0')) ++ "|" ++
       (if JsonRange.colOf (sup == "u") vs == col then "1" else "0")
     | _, _, _, _ => "bad-op"
+  | ["ffrange", lk, lv, uk, uv, mn, mx, full] =>
+    match parseBndN lk lv, parseBndN uk uv, mn.toNat?, mx.toNat?, parseB full with
+    | some lo, some hi, some mn, some mx, some full =>
+      match FastRange.classify lo hi mn mx full with
+      | .empty => "empty"
+      | .all => "all"
+      | .range st en => s!"range:{st}:{en}"
+    | _, _, _, _, _ => "bad-op"
   | ["i64", v] =>
     match v.toNat? with
     | some v => toString (OrderEnc.i64_to_u64 (BitVec.ofNat 64 v)).toNat
